@@ -177,6 +177,19 @@ Theorem C06_tree_refines_main :
 Proof. exact tree_refines_main. Qed.
 Print Assumptions C06_tree_refines_main.
 
+(* An indexed — and therefore counted — key can be looked up: in every reachable state of an opened cache a
+   lookup of it returns a complete value of the recorded size (no "indexed entry without its file", no store
+   that returned Ok and is gone). *)
+Theorem C06_indexed_is_served :
+  forall (c : N) (d : disk) (ths : list thread) (sched : list nat),
+  disk_ok d -> forallb is_call ths = true ->
+  let w := exec (start c d ths) sched in
+  inited (ws w) = true ->
+  forall k sz, alookup k (index (lru (ws w))) = Some sz ->
+    exists v, visible (ws w) k = Some v /\ blen v = sz.
+Proof. exact indexed_is_served. Qed.
+Print Assumptions C06_indexed_is_served.
+
 (* ---------- non-vacuity ---------- *)
 
 Definition kx : list N := [97; 49; 98; 50].          (* "a1b2" *)
@@ -253,3 +266,22 @@ Example nested_put_crash :
   map fst (index (lru (base r))) = [ppk; px] /\ map fst (index (pps r)) = [ppk] /\
   size (lru (base r)) = 4 /\ temp_count r = 0%nat.
 Proof. vm_compute. repeat split; reflexivity. Qed.
+
+(* The lock scope of DiskCache::get is load-bearing.  C06_no_errors holds because the look-up in the index,
+   utimes and open are ONE critical section.  If they were two steps (index look-up under the lock, utimes + open
+   after unlocking: thread kind TGetSplit, which the code does NOT have), a store of another key whose
+   reservation evicts the entry in between makes the lookup fail — neither a miss nor a complete entry — while the
+   atomic lookup under the same schedule is served. *)
+Definition py : key := make_key_path [98; 50; 99; 51].     (* "b/2/b2c3" *)
+
+Theorem C06_split_lookup_refuted :
+  exists (c : N) (d : disk) (sched : list nat),
+    disk_ok d /\
+    nth_error (twt (texec (tstart c d [TGetSplit px; TMain (TPut py 3 [[1; 1; 1]] false)]) sched)) 0
+      = Some (TMain (TGetDone px GErr)) /\
+    nth_error (twt (texec (tstart c d [TMain (TGet px); TMain (TPut py 3 [[1; 1; 1]] false)]) sched)) 0
+      = Some (TMain (TGetDone px (GHit [9; 9]))).
+Proof.
+  exists 4, ex_disk, [0; 1; 0]%nat. split; [exact ex_disk_ok|]. vm_compute. split; reflexivity.
+Qed.
+Print Assumptions C06_split_lookup_refuted.
